@@ -65,6 +65,7 @@ def isotropy(chk, tier, rng):
         try:
             res, proxy = PL.run_pipeline(duck, strain, KEYS)
         except SymError as e:
+            replay_isotropy(chk, rng, "symbolic run stopped: %s" % e)      # an undecided guard: look at the real code first
             chk.inconclusive("isotropy", str(e))
             return
         except Exception as e:
@@ -219,6 +220,7 @@ def completeness_and_independence(chk, tier, rng):
         try:
             res, proxy = PL.run_pipeline(duck, strain, R)
         except SymError as e:
+            replay_request(chk, rng, R, "symbolic run stopped: %s" % e)    # an undecided guard: look at the real code first
             chk.inconclusive("request%s" % R[:3], str(e))
             return
         except Exception as e:
